@@ -444,6 +444,8 @@ func runC09(c *Ctx) {
 	reflectMapStoreRule(c, "C09-D9")
 	c.Rule("C09-D12", "a decoded header owns its storage (shared with C03-D8): pointer fields of the PacketHeader built in parser/json point to a variable of that call, nil or the caller's pointer — not into the parser", 1)
 	headerOwnsItsStorage(c, "C09-D12")
+	c.Rule("C09-D15", "an empty position is not a placeholder (F48): in reconstructBinaryValue the placeholder is parsed only when the position holds bytes, and Binary.UnmarshalJSON reads null back as an absent Binary", 2)
+	nullBinaryNotAPlaceholder(c, "C09-D15")
 	c09MapWalkers(c)
 	c09FrameWriters(c)
 	c09ReconstructorOwnsFrames(c)
